@@ -134,6 +134,12 @@ def gen(ctx, rng):
     case['amp_in_h'] = amp / h
     # constant membrane pre-stress carried by the panel (calc_k0 / calc_kT add kG0(N_cte); the internal force must match)
     case['ncte'] = ([rng.uniform(-1, 1) * 1e3, rng.choice([0., 40.]), rng.choice([0., -25.])] if rng.random() < 0.3 else None)
+    if rng.random() < 0.25:
+        # rarely used option: every route (analytic k0, numerical kL / kG / fint) must see the same, orthotropic, laminate
+        case['force_ortho'] = True
+        case['stack'] = list(case['stack']) + [rng.choice([30., -55., 17.])]
+        if len(case['laminaprop']) == 3 or case['laminaprop'][0] == case['laminaprop'][1]:
+            case['laminaprop'] = (142.5e9, 8.7e9, 0.28, 5.1e9, 5.1e9, 5.1e9)
     return case
 
 
@@ -229,6 +235,11 @@ def assembly_case(ctx, rng):
     h = c1['plyt'] * len(c1['stack'])
     c = np.array([rng.uniform(-1, 1) for _ in range(size)]) * h
     d = np.array([rng.uniform(-1, 1) for _ in range(size)]) * h * 0.5
+    # pre-buckling-like states: every out-of-plane amplitude of one panel (or of all panels) exactly zero, in-plane ones not -
+    # the membrane forces still make the geometric part of the tangent
+    flat = rng.choice(['none', 'none', 'second panel', 'all'])
+    for pn_ in ([p2] if flat == 'second panel' else ([p1, p2] if flat == 'all' else [])):
+        c[pn_.col_start + 2: pn_.col_end: 3] = 0.
     fint = lambda cc: np.array(pc.quiet(asm.calc_fint, np.ascontiguousarray(cc), silent=True))
     # call history on the SAME assembly before the quantities are requested: raw (un-finalized) evaluations, other states
     prelude = rng.choice([[], [], ['kT raw'], ['k0 raw'], ['kT raw', 'fint'], ['k0', 'kT raw'], ['fint', 'kT raw', 'k0']])
